@@ -586,6 +586,16 @@ impl JobServer {
             state.destroy_tokens(cheats);
             write_tokens(self.params.cheat_fds.1, state.cheats as usize)
                 .map_err(RedoError::opaque_error)?;
+        } else if !state.has_token() && self.params.top_level == 0 {
+            // We are about to exit without holding any token: ours went back to the pipe
+            // while we waited for a lock, and what we held afterwards was borrowed (a
+            // cheater token that was repaid when the job built with it finished) or never
+            // re-acquired (an error while waiting).  The redo that started us re-creates
+            // one token when we die, as it does for every child; without a word from us
+            // that token would come out of thin air.  Tell it not to, the same way a
+            // process that exits with a cheater token in hand does.
+            debug_jobserver!("0,0 -> force_return_tokens: exiting without a token");
+            write_tokens(self.params.cheat_fds.1, 1).map_err(RedoError::opaque_error)?;
         }
         Ok(())
     }
